@@ -838,6 +838,13 @@ theorem L1_committed_never_rewritten {s s' : Sys1 N} (h : Reach1 s) (st : Step1 
   · have := C15_committed_never_rewritten r0 st0 y
     rwa [rel.log, rel'.log, rel.commit, rel'.commit, rel.term, rel'.term] at this
 
+/-- etcd's `commitTo` panic ("tocommit out of range") is unreachable: the commit index never exceeds the log -/
+theorem L1_commit_in_range {s : Sys1 N} (h : Reach1 s) (i : Fin N) : (s.nodes i).commit ≤ (s.nodes i).log.length := by
+  obtain ⟨s0, r0, rel⟩ := reach1_related h
+  obtain ⟨_, _, _, h3, _⟩ := reach_inv r0
+  have := (h3.n1 i).1
+  rwa [rel.commit, rel.log] at this
+
 /-- the premises are satisfiable: a one-node cluster elects itself and commits a proposal -/
 example : ∃ s : Sys1 1, Reach1 s ∧ (s.nodes 0).role = .leader ∧ (s.nodes 0).commit = 2 := by
   have s1 := Reach1.step Reach1.init (Step1.hup (init1 1) 0 (by simp [init1]))
